@@ -1,6 +1,459 @@
-(* RouterProofs.v — C07: the theorems about the router model, collected.
-   The proofs live in RouterLemmas / RouterFrame / RouterTrans / RouterData /
-   RouterMust / RouterInv; this file adds the remaining ones and re-exports. *)
-From Moc Require Export Base Match MatchProofs Router RouterLemmas RouterFrame RouterTrans RouterData RouterMust.
+(* RouterProofs.v — C07: the theorems about the router model.  The invariant
+   proofs live in RouterLemmas / RouterFrame / RouterTrans / RouterData /
+   RouterMust / RouterEnv / RouterInv / RouterDataInv / RouterOnce /
+   RouterOrder / RouterReplies / RouterIndep; this file states the remaining theorems in
+   their final form and re-exports everything. *)
+From Moc Require Export Base Match MatchProofs Router RouterLemmas RouterFrame RouterTrans RouterData RouterMust
+  RouterEnv RouterInv RouterDataInv RouterOnce RouterOrder RouterReplies RouterIndep.
 From Moc.Gen Require Import GenRouter.
+From Coq Require Import Sorted.
 Open Scope Z_scope.
+
+(* ------------------------------------------------------------------ *)
+(** * One visit *)
+
+Definition matching_subs (e : event) (m : submap) : list str :=
+  List.map fst (filter (fun kv => sub_matches e (snd kv)) m).
+
+Lemma visit_loop_spec buf e t m : forall q,
+  visit_loop buf e t m q =
+  q ++ List.map (fun sub => MEvent sub e t) (firstn (buf - length q) (matching_subs e m)).
+Proof.
+  induction m as [|[sub fs] m IH]; intro q; cbn [visit_loop matching_subs filter List.map snd].
+  - rewrite firstn_nil. cbn. now rewrite app_nil_r.
+  - fold (matching_subs e m). destruct (sub_matches e fs) eqn:Hm.
+    + destruct (Nat.ltb (length q) buf) eqn:Hlt.
+      * apply Nat.ltb_lt in Hlt. rewrite IH, app_length. cbn [length List.map fst].
+        destruct (buf - length q)%nat as [|k] eqn:Ek; [lia|].
+        replace (buf - (length q + 1))%nat with k by lia. cbn [firstn List.map]. now rewrite <- app_assoc.
+      * apply Nat.ltb_ge in Hlt. rewrite IH. replace (buf - length q)%nat with 0%nat by lia. reflexivity.
+    + apply IH.
+Qed.
+
+Lemma count_copy_map sub t e l :
+  count_occ_b (is_copy sub t) (List.map (fun s => MEvent s e t) l) = count_occ_b (str_eqb sub) l.
+Proof.
+  induction l as [|k l IH]; cbn; [reflexivity|]. rewrite ptag_eqb_refl, andb_true_r, IH. reflexivity.
+Qed.
+
+Lemma matching_subs_keys e m k : In k (matching_subs e m) -> In k (List.map fst m).
+Proof.
+  unfold matching_subs. intro H. apply in_map_iff in H as [[k' v] [E H]]. apply filter_In in H as [H _].
+  cbn in E. subst. now apply in_map_fst in H.
+Qed.
+
+Lemma count_matching sub e m :
+  NoDup (List.map fst m) ->
+  count_occ_b (str_eqb sub) (matching_subs e m) =
+  match assoc sub m with Some fs => if sub_matches e fs then 1%nat else 0%nat | None => 0%nat end.
+Proof.
+  induction m as [|[k v] m IH]; intro ND; [reflexivity|].
+  inversion ND as [|? ? Hn ND']; subst. cbn [assoc].
+  unfold matching_subs. cbn [filter snd]. fold (matching_subs e m).
+  destruct (str_eqb sub k) eqn:E.
+  - apply str_eqb_eq in E. subst k.
+    assert (Z0 : count_occ_b (str_eqb sub) (matching_subs e m) = 0%nat).
+    { apply count_zero_notin. intros a Ha. apply str_eqb_neq. intro; subst a. apply Hn. eapply matching_subs_keys; eassumption. }
+    destruct (sub_matches e v); cbn [List.map fst count_occ_b]; [rewrite str_eqb_refl|]; fold (matching_subs e m); rewrite Z0; reflexivity.
+  - destruct (sub_matches e v); cbn [List.map fst count_occ_b]; [rewrite E|]; fold (matching_subs e m); now apply IH.
+Qed.
+
+(** An uninterrupted visit with room in the queue appends exactly one copy
+    per subscription of the visited connection whose filters match, labelled
+    with that subscription's id, and nothing else. *)
+Theorem visit_exact buf e t m q :
+  NoDup (List.map fst m) -> (length q + length (matching_subs e m) <= buf)%nat ->
+  exists new, visit_loop buf e t m q = q ++ new /\
+    (forall sub, count_occ_b (is_copy sub t) new =
+       match assoc sub m with Some fs => if sub_matches e fs then 1%nat else 0%nat | None => 0%nat end) /\
+    Forall (fun msg => exists sub, msg = MEvent sub e t) new.
+Proof.
+  intros ND Hroom. exists (List.map (fun sub => MEvent sub e t) (matching_subs e m)). split; [|split].
+  - rewrite visit_loop_spec. rewrite firstn_all2 by lia. reflexivity.
+  - intro sub. rewrite count_copy_map. now apply count_matching.
+  - apply Forall_forall. intros msg H. apply in_map_iff in H as [sub [E _]]. eauto.
+Qed.
+
+(** without room: a prefix of the matching subscriptions (in iteration
+    order) gets its copy, the queue ends up full *)
+Theorem visit_when_short_of_room buf e t m q :
+  (length q <= buf)%nat -> (buf < length q + length (matching_subs e m))%nat ->
+  length (visit_loop buf e t m q) = buf.
+Proof.
+  intros H1 H2. rewrite visit_loop_spec, app_length, map_length, firstn_length. lia.
+Qed.
+
+(** the model's visit, run without interruption, is [visit_loop] *)
+Lemma step_send s c e t x sub fs todo rest :
+  c_pc (r_cs s c) = IVisit e t x ((sub, fs) :: todo) :: rest ->
+  step s (LRun c) =
+  with_cs s (upd (upd (r_cs s) c (set_pc (r_cs s c) (IVisit e t x todo :: rest))) x
+               (send_if_match (r_buf s) e t sub fs (upd (r_cs s) c (set_pc (r_cs s c) (IVisit e t x todo :: rest)) x))).
+Proof.
+  intro Hpc. unfold step, enabled. rewrite Hpc, trysend_has_default. cbn [orb step_enabled].
+  unfold run_instr. now rewrite Hpc.
+Qed.
+
+Lemma q_upd_pc f c pc x : c_q (upd f c (set_pc (f c) pc) x) = c_q (f x).
+Proof. destruct (upd_cases f c (set_pc (f c) pc) x) as [[-> ->]|[_ ->]]; reflexivity. Qed.
+
+Theorem visit_uninterrupted e t x : forall todo s c rest,
+  c_pc (r_cs s c) = IVisit e t x todo :: rest ->
+  let s' := run s (repeat (LRun c) (length todo)) in
+  c_q (r_cs s' x) = visit_loop (r_buf s) e t todo (c_q (r_cs s x)) /\
+  c_pc (r_cs s' c) = IVisit e t x [] :: rest.
+Proof.
+  induction todo as [|[sub fs] todo IH]; intros s c rest Hpc; cbn [length repeat]; [cbn; auto|].
+  rewrite run_cons, (step_send s c e t x sub fs todo rest Hpc).
+  set (s1 := with_cs s _).
+  assert (Hpc1 : c_pc (r_cs s1 c) = IVisit e t x todo :: rest).
+  { unfold s1. cbn [r_cs with_cs].
+    rewrite (pc_upd2 _ _ _ _ (send_if_match (r_buf s) e t sub fs)) by (intro; apply ctl_send_if_match).
+    now rewrite upd_same. }
+  destruct (IH s1 c rest Hpc1) as [Hq Hp]. split; [|exact Hp].
+  rewrite Hq. unfold s1. cbn [r_buf r_cs with_cs visit_loop]. rewrite upd_same.
+  unfold send_if_match. rewrite q_upd_pc.
+  destruct (sub_matches e fs); [|now rewrite q_upd_pc].
+  destruct (Nat.ltb (length (c_q (r_cs s x))) (r_buf s)); cbn [c_q]; now rewrite ?q_upd_pc.
+Qed.
+
+(* ------------------------------------------------------------------ *)
+(** * MUST NOT deliver *)
+
+(** (labelled with its own id / filters match) whatever a connection has
+    received as a live event carries the id of one of its own REQs whose
+    filters match the event *)
+Theorem must_not_unjustified buf s x sub e t :
+  reachable buf s -> In (MEvent sub e t) (c_out (r_cs s x)) ->
+  exists fs, In (OReq sub fs) (c_ops (r_cs s x)) /\ sub_matches e fs = true.
+Proof.
+  intros R Hin. pose proof (DInv_reachable buf s R) as D.
+  destruct (d_just s D x sub e t) as [J _]; [|exact J].
+  rewrite evs_split. apply in_app_iff. left. apply filter_In. split; [assumption | reflexivity].
+Qed.
+
+(** copies seen (queued, sent or dropped) for (sub, t) do not increase during
+    a transition unless ... *)
+Definition no_pending_add (s : rstate) (x : conn) (sub : str) : Prop :=
+  Forall (fun i => match i with ISubAdd s' _ => str_eqb sub s' = false | _ => True end) (c_pc (r_cs s x)).
+
+Definition unsubscribed (s : rstate) (x : conn) (sub : str) : Prop :=
+  sub_of s x sub = None /\ no_pending_add s x sub.
+
+Lemma unsubscribed_trans s l s' x sub :
+  Inv s -> unsubscribed s x sub -> is_req_of x sub l = false -> trans s l s' -> unsubscribed s' x sub.
+Proof.
+  intros I [Hs Hp] Hl T. unfold unsubscribed, no_pending_add in *.
+  destruct (label_of_conn x l) eqn:Hlab.
+  - assert (Hact : forall c, label_of_conn x (LRun c) = true -> x = c)
+      by (intros c H; cbn in H; now apply Nat.eqb_eq in H).
+    inversion T; subst; cbn [label_of_conn] in Hlab; try discriminate; try (apply Hact in Hlab; subst x).
+    + (* op *) rewrite sub_of_with_cs. split; [assumption|]. cbn [r_cs with_cs]. rewrite upd_same. cbn [c_pc].
+      destruct o as [s2 fs2|s2|s2|e|]; cbn [program]; try (repeat constructor).
+      * cbn in Hl. rewrite Nat.eqb_refl in Hl. cbn in Hl.
+        assert (E : str_eqb sub s2 = false) by exact Hl.
+        destruct (reg_get c (r_reg s)); repeat constructor; assumption.
+      * destruct (reg_get c (r_reg s)); repeat constructor.
+    + (* regadd *) rewrite sub_of_mk, reg_get_set_same. cbn. split; [reflexivity|].
+      cbn [r_cs]. rewrite upd_same. cbn. rewrite H in Hp. now inversion Hp.
+    + (* subadd *) rewrite H in Hp. inversion Hp as [|? ? Hne Hp']; subst.
+      rewrite sub_of_mk, reg_get_set_same. split.
+      * rewrite assoc_sm_set_other by (now apply str_eqb_neq). unfold sub_of in Hs. now rewrite H1 in Hs.
+      * cbn [r_cs]. rewrite upd_same. exact Hp'.
+    + rewrite sub_of_with_cs. split; [assumption|]. cbn [r_cs with_cs]. rewrite upd_same. cbn.
+      rewrite H in Hp. now inversion Hp.
+    + (* subdel *) rewrite sub_of_mk, reg_get_set_same. split.
+      * destruct (str_dec sub sub0) as [->|N]; [apply assoc_sm_del_same|].
+        rewrite assoc_sm_del_other by assumption. unfold sub_of in Hs. now rewrite H1 in Hs.
+      * cbn [r_cs]. rewrite upd_same. cbn. rewrite H in Hp. now inversion Hp.
+    + rewrite sub_of_with_cs. split; [assumption|]. cbn [r_cs with_cs]. rewrite upd_same. cbn.
+      rewrite H in Hp. now inversion Hp.
+    + rewrite sub_of_with_cs. split; [assumption|]. cbn [r_cs with_cs]. rewrite upd_same. cbn.
+      rewrite H in Hp. now inversion Hp.
+    + rewrite sub_of_mk. split; [exact Hs|]. cbn [r_cs]. rewrite upd_same. cbn.
+      rewrite H in Hp. inversion Hp; subst. constructor; [exact Logic.I | assumption].
+    + rewrite sub_of_mk. split; [exact Hs|]. cbn [r_cs]. rewrite upd_same. cbn. rewrite H in Hp. now inversion Hp.
+    + (* visit *)
+      assert (x = c) by (destruct H1 as [->|[-> _]]; cbn in Hlab; now apply Nat.eqb_eq in Hlab). subst x.
+      rewrite sub_of_start_visit. split; [assumption|]. unfold start_visit. cbn [r_cs with_cs].
+      rewrite (pc_upd2 _ _ _ _ (fun st => set_rd st (c :: c_rd st))) by (intro; reflexivity).
+      rewrite upd_same. cbn. rewrite H in Hp. inversion Hp; subst. repeat constructor. assumption.
+    + rewrite sub_of_with_cs. split; [assumption|]. cbn [r_cs with_cs].
+      rewrite (pc_upd2 _ _ _ _ (fun st => set_rd st (remove_conn c (c_rd st)))) by (intro; reflexivity).
+      rewrite upd_same. cbn. rewrite H in Hp. now inversion Hp.
+    + rewrite sub_of_with_cs. split; [assumption|]. cbn [r_cs with_cs].
+      rewrite (pc_upd2 _ _ _ _ (send_if_match (r_buf s) e t sub0 fs)) by (intro; apply ctl_send_if_match).
+      rewrite upd_same. cbn. rewrite H in Hp. inversion Hp; subst. constructor; [exact Logic.I | assumption].
+    + rewrite sub_of_mk, reg_get_del_same. split; [reflexivity|]. cbn [r_cs]. rewrite upd_same. cbn.
+      rewrite H in Hp. now inversion Hp.
+  - destruct (ctl_fields _ _ (trans_ctl_other s l s' x T Hlab)) as (Epc & _). rewrite Epc. split; [|assumption].
+    rewrite (sub_of_reg_eq s s' x sub); [assumption|]. eapply env_reg; [eassumption | now apply not_label_not_run].
+Qed.
+
+(** (closed or replaced before / never subscribed) while connection x has no
+    subscription [sub] and none is being added, no copy labelled [sub] is
+    produced for x, whatever is published *)
+Theorem must_not_unsubscribed buf s tr x sub t :
+  reachable buf s -> unsubscribed s x sub ->
+  Forall (fun l => is_req_of x sub l = false) tr ->
+  (total (r_cs (run s tr) x) sub t <= total (r_cs s x) sub t)%nat /\ unsubscribed (run s tr) x sub.
+Proof.
+  intros R U F. revert s R U. induction F as [|l tr Hl F IH]; intros s R U; [cbn; split; [lia | assumption]|].
+  rewrite run_cons.
+  assert (Step : (total (r_cs (step s l) x) sub t <= total (r_cs s x) sub t)%nat /\ unsubscribed (step s l) x sub).
+  { destruct (step_trans s l) as [E|T]; [rewrite E; split; [lia | assumption]|].
+    pose proof (Inv_reachable buf s R) as I. split; [|eapply unsubscribed_trans; eassumption].
+    destruct (total_trans s l _ x sub t T) as [H|(c & e & todo & rest & fs & _ & Hpc & _)]; [assumption|].
+    exfalso. pose proof (inv_pc s I c) as P. rewrite Hpc in P.
+    destruct (pc_ok_inv_visit _ _ _ _ _ _ _ P) as (n & rem & id & _ & _ & _ & _ & _ & _ & _ & _ & Htodo).
+    specialize (Htodo sub fs (or_introl eq_refl)). destruct U as [U _]. congruence. }
+  destruct Step as [S1 S2]. destruct (IH (step s l) (reach_step buf s l R) S2) as [H1 H2]. split; [lia | assumption].
+Qed.
+
+(** (created after the OK) once publication (p, n) is over, no further copy
+    of it is produced for anybody *)
+Lemma pub_done_trans s l s' p n : Inv s -> pub_done s p n -> trans s l s' -> pub_done s' p n.
+Proof.
+  intros I [Hlt Hfree] T. split; [pose proof (ctr_trans s l s' p T); lia|].
+  destruct (label_of_conn p l) eqn:Hl.
+  - assert (Hact : forall c, label_of_conn p (LRun c) = true -> p = c)
+      by (intros c H; cbn in H; now apply Nat.eqb_eq in H).
+    assert (Tail : forall i rest, c_pc (r_cs s p) = i :: rest -> Forall (fun i => tag_free (p, n) i = true) rest)
+      by (intros i rest E; rewrite E in Hfree; now inversion Hfree).
+    inversion T; subst; cbn [label_of_conn] in Hl; try discriminate; try (apply Hact in Hl; subst p);
+      cbn [r_cs with_cs]; rewrite ?upd_same; cbn [c_pc set_pc push_out]; eauto.
+    + destruct o; cbn [program]; try (destruct (reg_get c (r_reg s))); repeat constructor.
+    + constructor; [|eauto]. cbn. unfold ptag_eqb. cbn. rewrite Nat.eqb_refl. cbn.
+      apply negb_true_iff, Nat.eqb_neq. lia.
+    + assert (p = c) by (destruct H1 as [->|[-> _]]; cbn in Hl; now apply Nat.eqb_eq in Hl). subst p.
+      unfold start_visit. cbn [r_cs with_cs].
+      rewrite (pc_upd2 _ _ _ _ (fun st => set_rd st (c :: c_rd st))) by (intro; reflexivity).
+      rewrite upd_same. cbn. rewrite H in Hfree. inversion Hfree as [|? ? F1 F2]; subst.
+      constructor; [exact F1|]. constructor; [exact F1 | exact F2].
+    + rewrite (pc_upd2 _ _ _ _ (fun st => set_rd st (remove_conn c (c_rd st)))) by (intro; reflexivity).
+      rewrite upd_same. cbn. eauto.
+    + rewrite (pc_upd2 _ _ _ _ (send_if_match (r_buf s) e t sub fs)) by (intro; apply ctl_send_if_match).
+      rewrite upd_same. cbn. rewrite H in Hfree. inversion Hfree as [|? ? F1 F2]; subst. constructor; assumption.
+  - destruct (ctl_fields _ _ (trans_ctl_other s l s' p T Hl)) as (Epc & _). now rewrite Epc.
+Qed.
+
+Theorem must_not_after_ok buf s tr p n x sub :
+  reachable buf s -> pub_done s p n ->
+  (total (r_cs (run s tr) x) sub (p, n) <= total (r_cs s x) sub (p, n))%nat /\ pub_done (run s tr) p n.
+Proof.
+  revert s. induction tr as [|l tr IH]; intros s R Dn; [cbn; split; [lia | assumption]|].
+  rewrite run_cons.
+  assert (Step : (total (r_cs (step s l) x) sub (p, n) <= total (r_cs s x) sub (p, n))%nat /\ pub_done (step s l) p n).
+  { destruct (step_trans s l) as [E|T]; [rewrite E; split; [lia | assumption]|].
+    pose proof (Inv_reachable buf s R) as I. split; [|eapply pub_done_trans; eassumption].
+    destruct (total_trans_p s l _ x sub p n I T) as [H|(_ & e & todo & rest & fs & Hpc & _)]; [assumption|].
+    exfalso. destruct Dn as [_ Hfree]. rewrite Hpc in Hfree. inversion Hfree as [|? ? F1 _]; subst.
+    cbn in F1. now rewrite ptag_eqb_refl in F1. }
+  destruct Step as [S1 S2]. destruct (IH (step s l) (reach_step buf s l R) S2) as [H1 H2]. split; [lia | assumption].
+Qed.
+
+(** (finished connection) after the end of a session nothing is queued for
+    it or sent to it any more *)
+Definition finished (s : rstate) (x : conn) : Prop := c_dead (r_cs s x) = true /\ c_pc (r_cs s x) = [].
+
+Lemma finished_step buf s l x :
+  reachable buf s -> finished s x ->
+  finished (step s l) x /\ c_out (r_cs (step s l) x) = c_out (r_cs s x).
+Proof.
+  intros R [Hd Hpc]. destruct (step_trans s l) as [E|T]; [rewrite E; repeat split; assumption|].
+  pose proof (Inv_reachable buf s R) as I. pose proof (DInv_reachable buf s R) as D.
+  destruct (d_over s D x Hd Hpc) as [Hq Hh].
+  assert (Hl : label_of_conn x l = false).
+  { destruct (label_of_conn x l) eqn:Hl; [|reflexivity]. exfalso.
+    inversion T; subst; cbn [label_of_conn] in Hl; try discriminate.
+    all: try (match goal with H1 : _ = LVisit _ _ _ \/ _ |- _ => destruct H1 as [->|[-> _]]; cbn in Hl end).
+    all: apply Nat.eqb_eq in Hl; subst x; congruence. }
+  destruct (ctl_fields _ _ (trans_ctl_other s l _ x T Hl)) as (Epc & Ed & _).
+  split; [split; congruence|].
+  destruct (dat_trans s l _ x T)
+    as [E|m Hl' _ _ _ _ _|c e t sub fs todo rest _ Hpcc E|rest Hl' _ _ _ _ _|m q' _ _ Q _ _ _ _|m _ Hh' _ _ _ _].
+  - apply dat_eq in E. tauto.
+  - subst l. cbn in Hl. now rewrite Nat.eqb_refl in Hl.
+  - apply dat_eq in E as (_ & _ & E3 & _). now rewrite E3, send_if_match_out.
+  - subst l. cbn in Hl. now rewrite Nat.eqb_refl in Hl.
+  - rewrite Hq in Q. discriminate.
+  - rewrite Hh in Hh'. discriminate.
+Qed.
+
+Theorem must_not_finished buf s tr x :
+  reachable buf s -> finished s x ->
+  c_out (r_cs (run s tr) x) = c_out (r_cs s x) /\ c_q (r_cs (run s tr) x) = [] /\ c_hand (r_cs (run s tr) x) = None.
+Proof.
+  revert s. induction tr as [|l tr IH]; intros s R F.
+  - cbn. split; [reflexivity|]. destruct F as [Hd Hpc]. exact (d_over s (DInv_reachable buf s R) x Hd Hpc).
+  - rewrite run_cons. destruct (finished_step buf s l x R F) as [F' Eo].
+    destruct (IH (step s l) (reach_step buf s l R) F') as (E1 & E2 & E3). rewrite E1, Eo. auto.
+Qed.
+
+(** the end of a session: after the deferred UnsubscribeAll has run the
+    connection is finished and out of the registry *)
+Theorem disconnect_finishes buf s x :
+  reachable buf s -> c_pc (r_cs s x) = [IUnsubAll] -> r_pubs s = [] ->
+  finished (step s (LRun x)) x /\ reg_get x (r_reg (step s (LRun x))) = None.
+Proof.
+  intros R Hpc Hp. pose proof (Inv_reachable buf s R) as I.
+  pose proof (inv_pc s I x) as P. rewrite Hpc in P. destruct (pc_ok_inv_unsuball _ _ _ P) as [_ Hd].
+  unfold step, enabled. rewrite Hpc, Hp. cbn [step_enabled]. unfold run_instr. rewrite Hpc.
+  unfold finished. cbn [r_cs r_reg]. rewrite upd_same. cbn. rewrite reg_get_del_same. auto.
+Qed.
+
+(* ------------------------------------------------------------------ *)
+(** * At most once *)
+
+Lemma count_out_le_evs f st : (count_occ_b f (filter is_event_msg (c_out st)) <= count_occ_b f (evs st))%nat.
+Proof. rewrite evs_split, count_occ_b_app. lia. Qed.
+
+Lemma count_filter_event sub t l :
+  count_occ_b (is_copy sub t) (filter is_event_msg l) = count_occ_b (is_copy sub t) l.
+Proof.
+  induction l as [|m l IH]; cbn; [reflexivity|]. destruct m; cbn; try exact IH.
+  destruct (str_eqb sub sub0 && ptag_eqb t t0); now rewrite IH.
+Qed.
+
+(** a connection receives at most one copy per subscription id and
+    publication, and if it received one, none was dropped *)
+Theorem deliver_at_most_once buf s x sub t :
+  reachable buf s ->
+  (count_occ_b (is_copy sub t) (c_out (r_cs s x)) + count_occ_b (is_drop sub t) (c_drops (r_cs s x)) <= 1)%nat.
+Proof.
+  intro R. pose proof (o_once s (OInv_reachable buf s R) x sub t) as H. unfold total in H.
+  pose proof (count_out_le_evs (is_copy sub t) (r_cs s x)) as H2. rewrite count_filter_event in H2. lia.
+Qed.
+
+(** likewise for everything in flight *)
+Theorem flow_at_most_once buf s x sub t :
+  reachable buf s -> (count_occ_b (is_copy sub t) (flow (r_cs s x)) <= 1)%nat.
+Proof.
+  intro R. pose proof (o_once s (OInv_reachable buf s R) x sub t) as H. unfold total, evs in H.
+  rewrite count_filter_event in H. lia.
+Qed.
+
+(* ------------------------------------------------------------------ *)
+(** * A copy is dropped only when the queue is full *)
+
+Theorem drop_only_when_full buf s l x d :
+  reachable buf s ->
+  In d (c_drops (r_cs (step s l) x)) -> ~ In d (c_drops (r_cs s x)) ->
+  length (c_q (r_cs s x)) = buf /\ c_q (r_cs (step s l) x) = c_q (r_cs s x) /\
+  exists c e t sub fs todo rest,
+    l = LRun c /\ c_pc (r_cs s c) = IVisit e t x ((sub, fs) :: todo) :: rest /\ d = (sub, e, t) /\ sub_matches e fs = true.
+Proof.
+  intros R Hin Hnot. destruct (step_trans s l) as [E|T]; [rewrite E in Hin; contradiction|].
+  pose proof (d_qlen s (DInv_reachable buf s R) x) as Hle. rewrite (reachable_buf buf s R) in Hle.
+  destruct (evs_trans s l _ x T) as [_ Dr _|c e t sub fs todo rest _ _ _ _ _ _ _ Dr|c e t sub fs todo rest El Hpc Hm Hge _ Q _ Dr|rest _ _ _ _ _ Dr];
+    try (rewrite Dr in Hin; contradiction).
+  rewrite Dr in Hin. apply in_app_iff in Hin as [Hin|[Hin|[]]]; [contradiction|]. subst d.
+  rewrite (reachable_buf buf s R) in Hge. split; [lia|]. split; [assumption|].
+  exists c, e, t, sub, fs, todo, rest. auto.
+Qed.
+
+(** and the queue never exceeds buflen *)
+Theorem queue_bounded buf s x : reachable buf s -> (length (c_q (r_cs s x)) <= buf)%nat.
+Proof. intro R. pose proof (d_qlen s (DInv_reachable buf s R) x) as H. now rewrite (reachable_buf buf s R) in H. Qed.
+
+(* ------------------------------------------------------------------ *)
+(** * Publication order *)
+
+Theorem publisher_order_preserved buf s x p :
+  reachable buf s -> StronglySorted le (pub_seq p (c_out (r_cs s x))).
+Proof. apply out_order. Qed.
+
+(** sequence numbers are issued in the publisher's program order: number n
+    is the n-th EVENT the connection has begun *)
+Theorem pub_numbers_in_program_order s c e rest :
+  c_pc (r_cs s c) = IPubBegin e :: rest ->
+  c_pc (r_cs (step s (LRun c)) c) = IPub e (c, c_ctr (r_cs s c)) (List.map fst (r_reg s)) :: rest /\
+  c_ctr (r_cs (step s (LRun c)) c) = S (c_ctr (r_cs s c)).
+Proof.
+  intro Hpc. unfold step, enabled. rewrite Hpc. cbn [step_enabled]. unfold run_instr. rewrite Hpc.
+  cbn [r_cs]. rewrite upd_same. cbn. auto.
+Qed.
+
+(* ------------------------------------------------------------------ *)
+(** * A publisher never waits for a subscriber *)
+
+Definition publishing (pc : list instr) : bool :=
+  match pc with
+  | IPubBegin _ :: _ | IPub _ _ _ :: _ | IVisit _ _ _ _ :: _ | IOk _ :: _ => true
+  | _ => false
+  end.
+
+(** every step of an EVENT is enabled in every state: no rule of the model
+    makes the publisher wait for room in anybody's queue *)
+Theorem publisher_never_blocked s c : publishing (c_pc (r_cs s c)) = true -> enabled s (LRun c) = true.
+Proof.
+  unfold enabled. destruct (c_pc (r_cs s c)) as [|i rest]; [discriminate|].
+  destruct i; cbn; try discriminate; try reflexivity.
+  destruct todo as [|[sub fs] todo]; [reflexivity|]. try rewrite trysend_has_default; reflexivity.
+Qed.
+
+Theorem visit_never_blocked s c c' ord : enabled s (LVisit c c' ord) = true.
+Proof. reflexivity. Qed.
+
+(** enabledness does not depend on any queue, forwarder slot or output *)
+Theorem enabled_ignores_queues s1 s2 l :
+  r_pubs s1 = r_pubs s2 ->
+  (forall c, c_pc (r_cs s1 c) = c_pc (r_cs s2 c) /\ c_rd (r_cs s1 c) = c_rd (r_cs s2 c)) ->
+  enabled s1 l = enabled s2 l.
+Proof.
+  intros Hp Hc. destruct l as [c o|c|c c' ord|c|c]; try reflexivity.
+  unfold enabled. destruct (Hc c) as [E1 E2]. rewrite <- E1, <- E2, <- Hp.
+  destruct (c_pc (r_cs s1 c)) as [|i rest]; [reflexivity|]. destruct i; try reflexivity.
+  all: destruct todo as [|[sub fs] todo]; [reflexivity|]; try rewrite trysend_has_default; reflexivity.
+Qed.
+
+(** a step of the publisher makes progress: its program changes *)
+Theorem publisher_step_progress s c :
+  publishing (c_pc (r_cs s c)) = true -> c_pc (r_cs (step s (LRun c)) c) <> c_pc (r_cs s c).
+Proof.
+  intro Hp. unfold step. rewrite (publisher_never_blocked s c Hp). cbn [step_enabled]. unfold run_instr.
+  destruct (c_pc (r_cs s c)) as [|i rest] eqn:Hpc; [discriminate|].
+  destruct i; cbn in Hp; try discriminate.
+  - cbn [r_cs]. rewrite upd_same. cbn. intro E. inversion E.
+  - destruct rem as [|c1 rem].
+    + cbn [r_cs]. rewrite upd_same. cbn. intro E. apply (f_equal (@length instr)) in E. cbn in E. lia.
+    + unfold start_visit. cbn [r_cs with_cs].
+      rewrite (pc_upd2 _ _ _ _ (fun st => set_rd st (c :: c_rd st))) by (intro; reflexivity).
+      rewrite upd_same. cbn. intro E. inversion E.
+  - destruct todo as [|[sub fs] todo].
+    + cbn [r_cs with_cs].
+      rewrite (pc_upd2 _ _ _ _ (fun st => set_rd st (remove_conn c (c_rd st)))) by (intro; reflexivity).
+      rewrite upd_same. cbn. intro E. apply (f_equal (@length instr)) in E. cbn in E. lia.
+    + cbn [r_cs with_cs].
+      rewrite (pc_upd2 _ _ _ _ (send_if_match (r_buf s) e t sub fs)) by (intro; apply ctl_send_if_match).
+      rewrite upd_same. cbn. intro E. inversion E as [E2]. apply (f_equal (@length (str * list rfilter))) in E2. cbn in E2. lia.
+  - cbn [r_cs with_cs]. rewrite upd_same. cbn. intro E. apply (f_equal (@length instr)) in E. cbn in E. lia.
+Qed.
+
+(** and nobody else can undo it: other connections' steps leave the
+    publisher's program alone *)
+Theorem publisher_not_interfered s l c :
+  label_of_conn c l = false -> c_pc (r_cs (step s l) c) = c_pc (r_cs s c).
+Proof. apply step_pc_other. Qed.
+
+(* ------------------------------------------------------------------ *)
+(** * From "EOSE received" to [established] *)
+
+Theorem req_end_established buf s x sub :
+  reachable buf s -> c_pc (r_cs s x) = [IEose sub] ->
+  exists fs ops0,
+    c_ops (r_cs s x) = ops0 ++ [OReq sub fs] /\
+    established (step s (LRun x)) x sub fs /\
+    c_out (r_cs (step s (LRun x)) x) = c_out (r_cs s x) ++ [MEose sub].
+Proof.
+  intros R Hpc. pose proof (Inv_reachable buf s R) as I.
+  pose proof (inv_pc s I x) as P. rewrite Hpc in P.
+  destruct (pc_ok_inv_eose_last _ _ _ _ P) as (fs & ops0 & Hs & Ho).
+  exists fs, ops0. split; [assumption|].
+  assert (Hd : c_dead (r_cs s x) = false).
+  { destruct (c_dead (r_cs s x)) eqn:Hd; [|reflexivity].
+    destruct (inv_dead s I x Hd) as [E|[E _]]; rewrite E in Hpc; discriminate. }
+  unfold step, enabled. rewrite Hpc. cbn [step_enabled]. unfold run_instr. rewrite Hpc.
+  unfold established, quiet. rewrite sub_of_with_cs. cbn [r_cs with_cs]. rewrite upd_same. cbn.
+  repeat split; auto.
+Qed.
